@@ -13,7 +13,7 @@ import warnings
 import numpy as np
 
 import vlib
-from symx.engine import Engine, SymReal, sb, conj
+from symx.engine import Engine, SymReal, SymBool, sb, conj
 
 POP_CSV = "/data/no_food_trade/animal_feed_data/FAOSTAT_head_and_slaughter.csv"
 
@@ -145,3 +145,210 @@ GROUP = dict(name="herd_table_across_a_history_of_runs", fn="harness.history:wor
              symbolic="the value of every head-count override of every run",
              assumptions=["override values in [0, 1e11]"], stubs=["AnimalModelBuilder.create_animal_objects -> captures the row it is given and stops the run"],
              outside=["tables other than the head-count table (they are read but never written by the model)", "the rest of the run after the herd objects are created"])
+
+
+# =====================================================================================================================================
+# Result objects across a history of runs: B, A, B.  Whatever the second run of B returns must be what its first run returned.
+# =====================================================================================================================================
+def snapshot(obj, depth=0, seen=None):
+    """a detached copy of everything reachable from a result object through instance AND class attributes (class-level containers are where
+    accumulators shared between runs live); leaves are numbers / SymReal / str / bool / None"""
+    import types as _t
+    seen = seen if seen is not None else set()
+    if isinstance(obj, SymReal) or obj is None or isinstance(obj, (bool, int, float, str, np.floating, np.integer, np.bool_)):
+        return obj
+    if isinstance(obj, (list, tuple)):
+        return [snapshot(x, depth + 1, seen) for x in obj]
+    if isinstance(obj, np.ndarray):
+        return [snapshot(x, depth + 1, seen) for x in obj.tolist()] if obj.dtype == object else [float(x) if obj.dtype.kind == "f" else x for x in obj.tolist()]
+    if isinstance(obj, dict):
+        return {"__dict__": {str(k): snapshot(v, depth + 1, seen) for k, v in obj.items()}}
+    if isinstance(obj, (_t.FunctionType, _t.MethodType, _t.ModuleType, _t.BuiltinFunctionType, type)) or depth > 4 or id(obj) in seen:
+        return "<skipped>"
+    seen = seen | {id(obj)}
+    out = {}
+    for name in dir(obj):
+        if name.startswith("__"):
+            continue
+        try:
+            v = getattr(obj, name)
+        except Exception:   # noqa
+            continue
+        if callable(v) and not isinstance(v, (dict, list)):
+            continue
+        out[name] = snapshot(v, depth + 1, seen)
+    return {"__obj__": type(obj).__name__, "attrs": out}
+
+
+def compare(E, a, b, path, diffs):
+    """structural comparison of two snapshots; symbolic leaves become solver obligations collected in diffs[path] (list of SymBool / bool)"""
+    if isinstance(a, dict) and isinstance(b, dict):
+        ka = a.get("__dict__", a.get("attrs"))
+        kb = b.get("__dict__", b.get("attrs"))
+        if ka is None or kb is None or sorted(ka) != sorted(kb):
+            diffs.setdefault(path, []).append(False)
+            diffs.setdefault("__where__", []).append("%s: entries %s vs %s" % (path, sorted(ka or [])[:12], sorted(kb or [])[:12]))
+            return
+        for k in ka:
+            compare(E, ka[k], kb[k], path + "." + k, diffs)
+        return
+    if isinstance(a, list) and isinstance(b, list):
+        if len(a) != len(b):
+            diffs.setdefault(path, []).append(False)
+            diffs.setdefault("__where__", []).append("%s: length %d vs %d" % (path, len(a), len(b)))
+            return
+        for i, (x, y) in enumerate(zip(a, b)):
+            compare(E, x, y, path, diffs)
+        return
+    diffs.setdefault(path.split(".")[1] if "." in path else path, []).append(_eq(a, b) if not (isinstance(a, str) or isinstance(b, str)) else a == b)
+
+
+PREF_SYM = ["meat_eaten", "stored_food_to_humans"]
+
+
+def _one_run(mods, consts, N, tag, E, meat, values=None):
+    """one run's reporting chain as run_scenario drives it: Extractor.extract_results -> Interpreter.interpret_results -> set_feed_and_biofuels -> set_meat_dictionary"""
+    from harness import C04_reporting as C4
+    om, ex, ir, fd, uc = mods
+    base = dict(a=7.0, b=3.0)[tag]
+    vals = {}
+    for i, p in enumerate(C4.PREF):
+        if p.endswith("_fat") or p.endswith("_protein"):
+            vals[p] = [0.0] * N
+        elif p in PREF_SYM:
+            if values is None:
+                vals[p] = E.reals("%s_%s" % (tag, p), N)
+                for v in vals[p]:
+                    E.assume(v >= 0)
+                    E.assume(v <= 1e6)
+            else:
+                vals[p] = [np.float64(values.get("%s_%s_%d" % (tag, p, m), 1.0)) for m in range(N)]
+        else:
+            vals[p] = [np.float64(base + 0.25 * i + m) if "to_humans" in p else np.float64(0.0) for m in range(N)]
+    milk, fish, gh, prod = ([np.float64(base * k + m) for m in range(N)] for k in (1.0, 0.5, 0.25, 40.0))
+
+    class LV(om.pulp.LpVariable):
+        def __init__(self, name, val):
+            om.pulp.LpVariable.__init__(self, name)
+            self.varValue = val
+    c = dict(consts)
+    c["NMONTHS"] = N
+    variables = {p: [LV("%s_%d" % (p, m), vals[p][m]) for m in range(N)] for p in C4.PREF}
+
+    def F(k):
+        z = np.array([np.float64(0.0)] * N, dtype=object)
+        return fd.Food(np.array(list(k), dtype=object), z.copy(), z.copy(), "billion kcals each month", "thousand tons each month", "thousand tons each month")
+    tc = dict(nonhuman_consumption=F([0.0] * N), fish=types.SimpleNamespace(to_humans=F(fish)), greenhouse_crops=F(gh), outdoor_crops=types.SimpleNamespace(production=F(prod)),
+              milk_kcals=np.array(list(milk), dtype=object), milk_fat=np.array([0.0] * N, dtype=object), milk_protein=np.array([0.0] * N, dtype=object))
+    model = types.SimpleNamespace(variables=lambda: [])
+    interp = ir.Interpreter()
+    e = ex.Extractor(c).extract_results(model, variables, tc)
+    I = interp.interpret_results(e, "vp_hist_" + tag)
+    I.set_feed_and_biofuels(types.SimpleNamespace(tag=tag))
+    I.set_meat_dictionary(meat)
+    return I
+
+
+def _meat(tag, N):
+    d = {"meat_cattle": [100.0 + m for m in range(N)], "meat_cattle_population": [5000.0 - m for m in range(N)], "pig": [0.0] * N, "pig_population": [0.0] * N}
+    if tag == "a":
+        d.update({"camelids": [7.0] * N, "camelids_population": [70.0] * N, "pig": [3.0] * N, "pig_population": [30.0] * N})
+    return d
+
+
+def worker_result_objects(case, seed):
+    from harness import C04_reporting as C4
+    from symx.npproxy import patched
+    import tempfile
+    import os
+    import shutil
+    mods = C4._mods()
+    om, ex, ir, fd, uc = mods
+    consts = C4._real_constants(case.get("country", "ARG"))
+    N = case["N"]
+    E = Engine(seed=seed, max_paths=400, query_timeout_ms=30000)
+    E.div0_mode = "numpy"
+    tmp = tempfile.mkdtemp(prefix="vp_hist_")
+    os.mkdir(os.path.join(tmp, "results"))
+
+    class FakeDF:
+        def __init__(self, d):
+            pass
+
+        def to_csv(self, *a, **k):
+            pass
+
+    def h(E):
+        snaps = []
+        with patched(ex, ir, fd, uc, isinstance_=True, extra={(ir, "pd"): types.SimpleNamespace(DataFrame=FakeDF), (ir, "repo_root"): tmp}), contextlib.redirect_stdout(io.StringIO()):
+            for tag in case["history"]:
+                I = _one_run(mods, consts, N, tag, E, _meat(tag, N))
+                snaps.append((tag, snapshot(I)))
+        first = {}
+        for tag, s in snaps:
+            if tag in first:
+                diffs = {}
+                compare(E, first[tag], s, "result", diffs)
+                where = diffs.pop("__where__", [])
+                for attr, conds in sorted(diffs.items()):
+                    ok = all(bool(c) for c in conds if not isinstance(c, SymBool))
+                    sym = [c for c in conds if isinstance(c, SymBool)]
+                    E.check("a run repeated after other runs returns the same result object (every attribute, instance and class level)", conj(sym) if (ok and sym) else ok,
+                            info="%s %s" % (attr, [w for w in where if w.startswith("result." + attr) or w.startswith(attr)][:2]))
+            else:
+                first[tag] = s
+    try:
+        E.explore(h)
+    finally:
+        shutil.rmtree(tmp, ignore_errors=True)
+    return E.summary()
+
+
+def replay_result_objects(case, cx):
+    from harness import C04_reporting as C4
+    import tempfile
+    import os
+    import shutil
+    case = case if isinstance(case, dict) else json.loads(case)
+    mods = C4._mods()
+    om, ex, ir, fd, uc = mods
+    consts = C4._real_constants(case.get("country", "ARG"))
+    m = vlib.model_floats(cx["model"])
+    tmp = tempfile.mkdtemp(prefix="vp_histr_")
+    os.mkdir(os.path.join(tmp, "results"))
+    old = ir.repo_root
+    ir.repo_root = tmp
+    bad = []
+    try:
+        first = {}
+        with contextlib.redirect_stdout(io.StringIO()), np.errstate(all="ignore"):
+            for tag in case["history"]:
+                I = _one_run(mods, consts, case["N"], tag, None, _meat(tag, case["N"]), values=m)
+                s = snapshot(I)
+                if tag in first:
+                    diffs = {}
+                    compare(None, first[tag], s, "result", diffs)
+                    where = diffs.pop("__where__", [])
+                    for attr, conds in diffs.items():
+                        if not all(bool(c) for c in conds):
+                            bad.append("%s differs %s" % (attr, [w for w in where if attr in w][:1]))
+                else:
+                    first[tag] = s
+    finally:
+        ir.repo_root = old
+        shutil.rmtree(tmp, ignore_errors=True)
+    return dict(reproduced=bool(bad), what="history %s: the repeated run's result differs from its first run: %s" % (case["history"], "; ".join(bad[:4])), inputs=dict(case=case, values=m),
+                key="history/result object carries state of another run")
+
+
+GROUP_RESULTS = dict(name="result_objects_across_a_history_of_runs", fn="harness.history:worker_result_objects", replay=replay_result_objects,
+                     functions=["Extractor.extract_results", "Interpreter.interpret_results", "Interpreter.set_feed_and_biofuels", "Interpreter.set_meat_dictionary"],
+                     bounds="histories B,A,B and B,A,A,B of the reporting chain in one process; 1-2 months; run A reports more species than run B",
+                     symbolic="meat eaten and stored food eaten of every run (the other allocations are concrete and differ between A and B)",
+                     assumptions=["values in [0, 1e6]", "paths on which the code's own validators assert are pruned"],
+                     stubs=["pd.DataFrame -> recorder, repo_root -> scratch directory, stub model.variables()"],
+                     outside=["state carried through pandas / PuLP objects", "the optimiser and the herd simulation"])
+
+
+def result_cases(thorough):
+    return [dict(N=1, history=["b", "a", "b"]), dict(N=2, history=["b", "a", "b"])] + ([dict(N=1, history=["b", "a", "a", "b"]), dict(N=2, history=["a", "b", "a"])] if thorough else [])
